@@ -76,12 +76,18 @@ What is proved
   | class | hypothesis added to `flow_answers_eq_ref_full` | theorem |
   | T1: one-to-one nodes, forest of links, one new out/error packet per action | `C02.ClassT1` | `C02.flow_answers_eq_ref_T1` |
   | T2 ⊇ T1: one-to-one nodes, ANY forward links (fan-out: a writer feeding several readers, rows joined in link order; fan-in: a reader fed by several writers), one new out/error packet per action | `C02.ClassT2` | `C02.flow_answers_eq_ref_T2` (invariant `FlowG.GI`, lean/Uniflow/Proofs/FlowG1..14.lean; `C02.flow_invariant_T2`, `C02.classT1_sub_T2`, non-vacuity `C02.flow_T2_instance`) |
+  | T3 ⊇ T2: one-to-one AND one-to-many nodes (a request has a list of derived packets; rows of several out-writers), any forward links, actions return one new out/error packet or – one-to-many – new packets on several out ports (≥ 1 on an existing port) | `C02.ClassT3` | `C02.flow_answers_eq_ref_T3` (invariant `FlowH.HI` over the abstract tracer state `ATracer.A`/`J` with the node log invariant `FlowH.NL`, lean/Uniflow/Proofs/FlowH1..28.lean; `C02.flow_invariant_T3`, `C02.classT2_sub_T3`, non-vacuity `C02.flow_T3_instance`) |
+  | T4 ⊇ T3: as T3, and a one-to-many action may return NO packet (`drop`, or `many` with nothing on an existing port): the request is answered with itself, in order | `C02.ClassT4` | `C02.flow_answers_eq_ref_T4` (`C02.classT3_sub_T4`, non-vacuity `C02.flow_T4_instance`; lean/Uniflow/Proofs/FlowH7e.lean, FlowH29.lean) |
 
 Not proved: `C02.flow_answers_eq_ref_full` (kept as a `def`) in general – beyond the classes of the table:
-one-to-many / many-to-one nodes and actions returning their input packet, several or no packets. The link
-layer of `FlowG.GI` (`WKG`, `hbOf`, `GI_gReply`, `GI_pushed`) is already general; what is missing is the
-node ghost: `NodeSpec.S`/`Rel` (one-to-one) has to be replaced by the all-kinds abstract tracer state
-(`ATracer.A` with invariant `J`, `C02.node_protocol`).
+(d) many-to-one nodes (several in-ports = several forward threads and readers per node, `ReadGroup` rows; a
+request that does not complete a group is answered with itself – the echo step of class T4 –, the request that
+completes it when the group's derived packet is answered): `FlowH.JB` / `FlowH.NL` are stated for ONE forward
+thread (`nd.threads = [th]`, all requests on reader 0) and `TgtOK`/`GraphWF3.tnode` for in-port 0 – they have to be
+indexed by reader; (e') actions returning their INPUT packet (`same`, `sames`: `RSt.direct`, excluded by
+`FlowH.ReqA`; with `Write` copying this is sound but the request id then also has `dels` entries); one-to-one
+actions returning nothing (the Go code dereferences nil – `program` = none, the model panics); one-to-many nodes
+with more than 6 out ports (the pump `backStep` only looks at writers `< maxW`).
 It is checked on every run of `bin/check C02` instead: `S1` after every step, `F…`/`M1` at the end.
 The statement requires the source to be linked (a request written to an unlinked source is never
 answered and has no reference answer).
@@ -96,6 +102,7 @@ import Uniflow.Props.C01
 import Uniflow.Proofs.Flow
 import Uniflow.Proofs.FlowInv16
 import Uniflow.Proofs.FlowG15
+import Uniflow.Proofs.FlowH29
 
 open Uniflow.Tracer Uniflow.Node Uniflow.NodeSpec
 
@@ -840,6 +847,147 @@ theorem C02.flow_T2_instance :
   · rfl
   · rfl
   · rfl
+
+/-! ### class T3: one-to-one and one-to-many nodes, arbitrary forward links -/
+
+/-- **Class T3**: every node is one-to-one or one-to-many (at most 6 out ports, so that all its writers fit
+the pump `maxW`); ANY forward links (`FlowH.GraphWF3`: fan-out, fan-in, no reader twice on one writer, node
+in-port 0, source linked); the schedules `FlowH.ExtT3`: the source sends, a sink answers, an action returns
+one new packet (`out`), one new error packet (`err`) or – in a one-to-many node – new packets on several out
+ports of which at least one exists (`many`). A request then has a LIST of derived packets; its answer is
+the join of their answers in link order. Contains class T2. -/
+def C02.ClassT3 (kinds : List Kind) (links : List (Nat × List Uniflow.Flow.Tgt)) (es : List Uniflow.Flow.Ext) : Prop :=
+  Uniflow.FlowH.GraphWF3 kinds links ∧ ∀ e ∈ es, Uniflow.FlowH.ExtT3 kinds e
+
+open Uniflow.Flow in
+/-- the invariant `FlowH.HI` – the link layer of `FlowG.GI`, the node ghost replaced by the abstract tracer
+state `ATracer.A` under `J` plus the node's log invariant `FlowH.NL` (per request: `acts` = the derived
+packets in link order, a linked cell's packet is unlogged, a filled cell holds the reference answer of its
+packet) – holds in every reachable state of class T3 -/
+theorem C02.flow_invariant_T3 (kinds : List Kind) (links : List (Nat × List Tgt)) (es : List Ext)
+    (hc : C02.ClassT3 kinds links es) :
+    ∃ aa, Uniflow.FlowH.HI kinds links aa Uniflow.FlowInv.D0 (runExt (initG kinds links) es) :=
+  Uniflow.FlowH.HIe_runExt kinds links hc.1 es _ hc.2 (Uniflow.FlowH.HIe_init kinds links hc.1)
+
+open Uniflow.Flow in
+/-- **The end-to-end statement for class T3** (one-to-one and one-to-many nodes, fan-out and fan-in) –
+literally `C02.flow_answers_eq_ref_full` with the one additional hypothesis `C02.ClassT3 kinds links es`. -/
+theorem C02.flow_answers_eq_ref_T3 :
+    ∀ (kinds : List Kind) (links : List (Nat × List Tgt)) (es : List Ext),
+    C02.FlowWF kinds links → Uniflow.Tracer.getL links srcKey ≠ [] → (∀ e ∈ es, e.fresh = true) →
+    C02.ClassT3 kinds links es →
+    let g := runExt (initG kinds links) es
+    (∀ (i : Nat) (a : Ans), g.resp[i]? = some a → ∃ p, g.roots[i]? = some p ∧ ∃ f, refAns g.log f p = some a) ∧
+    (quiescent g = true → anyPanic g = false → refAnswers g = some g.resp) := by
+  intro kinds links es _ _ _ hc
+  have hI := Uniflow.FlowH.HIe_runExt kinds links hc.1 es _ hc.2 (Uniflow.FlowH.HIe_init kinds links hc.1)
+  exact ⟨Uniflow.FlowH.HIe_safety kinds links _ hI,
+    fun hq _ => Uniflow.FlowH.HIe_quiescent_ref_eq kinds links hc.1 _ hI hq⟩
+
+/-- class T2 is contained in class T3 -/
+theorem C02.classT2_sub_T3 (kinds : List Kind) (links : List (Nat × List Uniflow.Flow.Tgt)) (es : List Uniflow.Flow.Ext)
+    (h : C02.ClassT2 kinds links es) : C02.ClassT3 kinds links es := by
+  obtain ⟨⟨N, hk, hwf⟩, hes⟩ := h
+  subst hk
+  exact ⟨Uniflow.FlowH.graphWF3_of_graphWF N links hwf,
+    fun e he => Uniflow.FlowH.extT3_of_extT1 _ (fun k hk => (List.mem_replicate.mp hk).2) e (hes e he)⟩
+
+open Uniflow.Flow in
+/-- a schedule on `FlowH.forkLinks` / `FlowH.forkKinds`: node 0 is one-to-many with two out ports feeding
+nodes 1 and 2, which both feed node 3's in-port; the fork returns a packet on each out port -/
+def C02.forkSched : List Ext :=
+  [.send (.atom 5), .release 0 (.many [some (.atom 6), some (.atom 7)]), .release 1 (.out (.atom 8)),
+   .release 2 (.out (.atom 9)), .release 3 (.out (.atom 10)), .sinkAnswer 0 (some (.pay (.atom 11))),
+   .release 3 (.out (.atom 12)), .sinkAnswer 0 (some (.pay (.atom 13)))]
+
+open Uniflow.Flow in
+/-- **non-vacuity of class T3**: the fork workflow with a one-to-many node is in the class, the schedule
+above is a class schedule, it reaches quiescence without panic, and the one response is the join `[11, 13]`
+of the answers to the two packets the fork derived (link order) = `refAnswers`. -/
+theorem C02.flow_T3_instance :
+    C02.ClassT3 Uniflow.FlowH.forkKinds Uniflow.FlowH.forkLinks C02.forkSched ∧
+    quiescent (runExt (initG Uniflow.FlowH.forkKinds Uniflow.FlowH.forkLinks) C02.forkSched) = true ∧
+    anyPanic (runExt (initG Uniflow.FlowH.forkKinds Uniflow.FlowH.forkLinks) C02.forkSched) = false ∧
+    (match refAnswers (runExt (initG Uniflow.FlowH.forkKinds Uniflow.FlowH.forkLinks) C02.forkSched),
+           (runExt (initG Uniflow.FlowH.forkKinds Uniflow.FlowH.forkLinks) C02.forkSched).resp with
+     | some [.pay (.slice [.atom 11, .atom 13])], [.pay (.slice [.atom 11, .atom 13])] => true
+     | _, _ => false) = true := by
+  refine ⟨⟨Uniflow.FlowH.fork_wf, ?_⟩, ?_, ?_, ?_⟩
+  · intro e he
+    simp only [C02.forkSched, List.mem_cons, List.mem_nil_iff, or_false] at he
+    rcases he with h | h | h | h | h | h | h | h <;> subst h
+    · trivial
+    · exact ⟨2, rfl, 0, .atom 6, by decide, rfl⟩
+    · exact Or.inr (Or.inl rfl)
+    · exact Or.inr (Or.inl rfl)
+    · exact Or.inr (Or.inl rfl)
+    · trivial
+    · exact Or.inr (Or.inl rfl)
+    · trivial
+  · rfl
+  · rfl
+  · rfl
+
+/-! ### class T4: T3 plus actions returning NO packet -/
+
+/-- **Class T4** = class T3 with richer schedules (`FlowH.ExtT4`): a one-to-many action may return nothing
+(`drop`) or any list of packets (`many`, possibly none of them on an existing port). Such a request derives no
+packet; the node answers it with the request packet itself (`Write(nil, in)`) – at once when no earlier request
+of the in-port is open, else when those are answered. Contains class T3. -/
+def C02.ClassT4 (kinds : List Kind) (links : List (Nat × List Uniflow.Flow.Tgt)) (es : List Uniflow.Flow.Ext) : Prop :=
+  Uniflow.FlowH.GraphWF3 kinds links ∧ ∀ e ∈ es, Uniflow.FlowH.ExtT4 kinds e
+
+open Uniflow.Flow in
+/-- **The end-to-end statement for class T4** – literally `C02.flow_answers_eq_ref_full` with the one
+additional hypothesis `C02.ClassT4 kinds links es`. -/
+theorem C02.flow_answers_eq_ref_T4 :
+    ∀ (kinds : List Kind) (links : List (Nat × List Tgt)) (es : List Ext),
+    C02.FlowWF kinds links → Uniflow.Tracer.getL links srcKey ≠ [] → (∀ e ∈ es, e.fresh = true) →
+    C02.ClassT4 kinds links es →
+    let g := runExt (initG kinds links) es
+    (∀ (i : Nat) (a : Ans), g.resp[i]? = some a → ∃ p, g.roots[i]? = some p ∧ ∃ f, refAns g.log f p = some a) ∧
+    (quiescent g = true → anyPanic g = false → refAnswers g = some g.resp) := by
+  intro kinds links es _ _ _ hc
+  have hI := Uniflow.FlowH.HIe_runExt4 kinds links hc.1 es _ hc.2 (Uniflow.FlowH.HIe_init kinds links hc.1)
+  exact ⟨Uniflow.FlowH.HIe_safety kinds links _ hI,
+    fun hq _ => Uniflow.FlowH.HIe_quiescent_ref_eq kinds links hc.1 _ hI hq⟩
+
+/-- class T3 is contained in class T4 -/
+theorem C02.classT3_sub_T4 (kinds : List Kind) (links : List (Nat × List Uniflow.Flow.Tgt)) (es : List Uniflow.Flow.Ext)
+    (h : C02.ClassT3 kinds links es) : C02.ClassT4 kinds links es :=
+  ⟨h.1, fun e he => Uniflow.FlowH.extT4_of_extT3 kinds e (h.2 e he)⟩
+
+open Uniflow.Flow in
+/-- two pipelined requests on the fork workflow: the first is split (one packet on out port 0), the second's
+action returns nothing – it is answered with itself, but only after the first -/
+def C02.dropSched : List Ext :=
+  [.send (.atom 5), .send (.atom 6), .release 0 (.many [some (.atom 7)]), .release 0 .drop,
+   .release 1 (.out (.atom 8)), .release 3 (.out (.atom 9)), .sinkAnswer 0 (some (.pay (.atom 10)))]
+
+open Uniflow.Flow in
+/-- **non-vacuity of class T4**: after the fork dropped the second request (5 steps) nothing has been answered
+yet – the echo waits for the first request –; at the end the responses are `10` (the sink's answer) and `6` (the
+second request itself), in request order, = `refAnswers`. -/
+theorem C02.flow_T4_instance :
+    C02.ClassT4 Uniflow.FlowH.forkKinds Uniflow.FlowH.forkLinks C02.dropSched ∧
+    (runExt (initG Uniflow.FlowH.forkKinds Uniflow.FlowH.forkLinks) (C02.dropSched.take 5)).resp = [] ∧
+    quiescent (runExt (initG Uniflow.FlowH.forkKinds Uniflow.FlowH.forkLinks) C02.dropSched) = true ∧
+    anyPanic (runExt (initG Uniflow.FlowH.forkKinds Uniflow.FlowH.forkLinks) C02.dropSched) = false ∧
+    (match refAnswers (runExt (initG Uniflow.FlowH.forkKinds Uniflow.FlowH.forkLinks) C02.dropSched),
+           (runExt (initG Uniflow.FlowH.forkKinds Uniflow.FlowH.forkLinks) C02.dropSched).resp with
+     | some [.pay (.atom 10), .pay (.atom 6)], [.pay (.atom 10), .pay (.atom 6)] => true
+     | _, _ => false) = true := by
+  refine ⟨⟨Uniflow.FlowH.fork_wf, ?_⟩, rfl, rfl, rfl, rfl⟩
+  intro e he
+  simp only [C02.dropSched, List.mem_cons, List.mem_nil_iff, or_false] at he
+  rcases he with h | h | h | h | h | h | h <;> subst h
+  · trivial
+  · trivial
+  · exact Or.inr ⟨2, rfl⟩
+  · exact Or.inr ⟨2, rfl⟩
+  · exact Or.inr (Or.inl rfl)
+  · exact Or.inr (Or.inl rfl)
+  · trivial
 
 /-! ### the pinned tree -/
 
